@@ -583,6 +583,14 @@ theorem unsupported_char_rejected (c : Char) (hb : isBad c = true) (s : List Cha
   obtain ⟨e, he⟩ := bad_char_inner_rejected c hb s hc h1 h2 rad
   simp only [smartsModel, he]
 
+/-- **mixed_or_list_rejected**: a `,`-list of numeric primitives whose alternatives are not all of one kind (`D1,h2`, `D1,h2,D3`,
+    `h1,x2,h3,h4`, … — any length, the odd item at any position) is never accepted ("Unsupported OR statement") -/
+theorem mixed_or_list_rejected (out : Parsed) (ps : List (List Char)) (f g : Char) (r1 r2 : List Char)
+    (hx : (f :: r1) ∈ ps) (hy : (g :: r2) ∈ ps) (hfg : f ≠ g) : ∀ o, applyNumPrim out ps ≠ .ok o :=
+  applyNumPrim_mixed out ps f g r1 r2 hx hy hfg
+
+example : applyNumPrim { element := .one (.sym ['C']) } (splitOn ',' "D1,h2,D3".toList) = .error .incorrectSmarts := by decide
+
 /-- the `&` operator ("<&> logic operator unsupported") is rejected wherever it occurs in a bracket atom -/
 theorem amp_rejected (s : List Char) (hc : '&' ∈ s) (h1 : '[' ∉ s) (h2 : ']' ∉ s) (rad : List Nat) :
     smartsModel ('[' :: s ++ [']']) rad = .err .incorrectSmarts :=
